@@ -1099,3 +1099,42 @@ M('C11', 'getattrcolumn-default-none', SB,
   ('R-TYPEDCOLS', 'GetAttrColumn.__call__'))
 T('C11', 'twin-typed-columns-renames-normalised', SB,
   "        colname = renames.get(name, name) if renames is not None else name\n", "        colname = name\n        if renames is not None and name in renames:\n            colname = renames[name]\n")
+BI = 'beanquery/__init__.py'
+M('C10', 'connection-attach-drops-keywords', BI,
+  "            self.attach(dsn, **kwargs)", "            self.attach(dsn)",
+  ('R-CONNECTION', 'Connection.__init__'))
+M('C10', 'connection-source-by-path', BI,
+  "        scheme = urlparse(dsn).scheme\n", "        scheme = urlparse(dsn).path or urlparse(dsn).scheme\n",
+  ('R-CONNECTION', 'Connection.attach'))
+M('C10', 'connection-close-drops-tables', BI,
+  "        # Required by the DB-API.\n        pass", "        # Required by the DB-API.\n        self.tables.clear()",
+  ('R-CONNECTION', 'Connection.close'))
+M('C10', 'connection-compile-without-context', BI,
+  "        return compiler.compile(self, query)", "        return compiler.compile(Connection(), query)",
+  ('R-CONNECTION', 'Connection.compile'))
+M('C20', 'connection-shared-option-dict', BI,
+  "    def __init__(self, dsn=None, **kwargs):\n        self.tables = {'': tables.NullTable()}\n        self.options = {}", "    def __init__(self, dsn=None, _options={}, **kwargs):\n        self.tables = {'': tables.NullTable()}\n        self.options = _options",
+  ('R-CONNECTION', 'Connection.__init__'))
+T('C10', 'twin-connection-attach-locals', BI,
+  "        scheme = urlparse(dsn).scheme\n        source = importlib.import_module(f'beanquery.sources.{scheme}')\n", "        parsed = urlparse(dsn)\n        name = 'beanquery.sources.' + parsed.scheme\n        source = importlib.import_module(name)\n")
+PA = 'beanquery/parser/ast.py'
+M('C09', 'walk-skips-nested-lists', PA,
+  "    if isinstance(node, list):\n        for child in node:\n            yield from walk(child)\n", "    if isinstance(node, list):\n        for child in node:\n            if isinstance(child, Node):\n                yield from walk(child)\n",
+  ('R-WALK', 'walk'))
+M('C09', 'walk-stops-after-first-child-field', PA,
+  "        for name, child in _fields(node):\n            yield from walk(child)\n        yield node", "        for name, child in _fields(node):\n            if isinstance(child, Node):\n                yield from walk(child)\n                break\n            yield from walk(child)\n        yield node",
+  ('R-WALK', 'walk'))
+T('C09', 'twin-walk-preorder', PA,
+  "        for name, child in _fields(node):\n            yield from walk(child)\n        yield node", "        yield node\n        for _, child in _fields(node):\n            yield from walk(child)")
+T('C09', 'twin-walk-elif-list', PA,
+  "        yield node\n    if isinstance(node, list):", "        yield node\n    elif isinstance(node, list):")
+PI_ = 'beanquery/parser/__init__.py'
+M('C06', 'ordering-default-descending', PI_,
+  "        return ast.Ordering[value or 'ASC']", "        return ast.Ordering[value or 'DESC']",
+  ('R-SEMANTICS', 'BQLSemantics.ordering'))
+M('C06', 'default-action-keeps-underscores', PI_,
+  "            return func(**{name.rstrip('_'): value for name, value in value.items()})", "            return func(**{name: value for name, value in value.items() if not name.endswith('_')})",
+  ('R-SEMANTICS', 'BQLSemantics._default'))
+M('C06', 'list-action-deduplicates', PI_,
+  "        return list(value)", "        return list(dict.fromkeys(value))",
+  ('R-SEMANTICS', 'BQLSemantics.list'))
